@@ -1,10 +1,13 @@
 import RvModel.Hand.Dispatch
 import RvModel.Spec.C03
+import RvModel.Hand.KsDist
 /- dispatch entries of the textbook CDFs / survival functions (C03) -/
 namespace HandDispatch
 open GenDispatch Wire
 
 def tableC03 : List (String × Rd String) := [
+  -- hand model of KsTwoAsymptotic::compute (dist/ks.rs): cdf and pdf; same op name in harness/src/manual.rs
+  ("hand.KsTwoAsymptotic.cdf_pdf", do let _ ← Wire.next; let x ← rdF; let r := Hand.KsDist.compute x; pure (wrF r.1 ++ " " ++ wrF r.2)),
   ("spec.Exponential.cdf_real", dx rd_Exponential Spec.Exponential.cdf),
   ("spec.Uniform.cdf_real", dx rd_Uniform Spec.Uniform.cdf),
   ("spec.Cauchy.cdf_real", dx rd_Cauchy Spec.Cauchy.cdf),
